@@ -61,6 +61,12 @@ def cases(rng, tier):
     # very long chains (> 1000 residues, lengths that are not round numbers)
     for sq in gen.very_long(rng, tier != "quick"):
         yield Case(["q %s %s%s" % (q.split(" ")[0], sq, "".join(" " + a for a in q.split(" ")[1:])) for q in ['countPos', 'fcr', 'ncpr', 'kd', 'ww', 'uversky', 'ppii hilser', 'mw', 'disorder', 'fer']], {"kind": "very-long"})
+    # titin-sized chains (> 20 000 residues) and lengths at / next to powers of two and round thousands
+    for n_ in ((20001, 4096) if tier == "quick" else (20001, 20480, 33000, 4096, 8192, 16384)):
+        sq = "".join(rng.choice("KRDEGSQNAPLVHYT") for _ in range(n_))
+        yield Case(["q %s %s" % (q, sq) for q in ['len', 'countPos', 'countNeg', 'countNeut', 'fcr', 'ncpr', 'fer', 'kd']], {"kind": "titin-sized"})
+    for sq in gen.boundary_seqs(rng, tier != "quick"):
+        yield Case(["q %s %s" % (q, sq) for q in ['len', 'countPos', 'countNeg', 'countNeut', 'fcr', 'ncpr', 'aafrac']], {"kind": "boundary-length"})
     # objects built from sequence files (two per block)
     for c in gen.file_cases(rng, 12 if tier == "quick" else 100, ['countPos', 'countNeg', 'fcr', 'ncpr', 'kd', 'mw', 'len']):
         yield c
